@@ -660,7 +660,74 @@ func hasTag(tags []string, t string) bool {
 
 // ---------- C05: inclusive gateway ----------
 
+// genC05Race: the variable an inclusive fork's condition reads is written by the answer of a task on a parallel
+// branch at about the moment the token arrives at the fork. Whichever value the fork sees, it has to act on one
+// of them: the conditional flow, or the default flow alone - never both, and never no flow at all without an error
+// trace. (No token game here: which value the fork sees is the schedule's choice; the check accepts either.)
+func genC05Race(d *Draw) Case {
+	defs := &Definitions{}
+	g := &Graph{ID: "P1", Executable: true}
+	defs.Procs = []*Graph{g}
+	mk := func(id string, res ...string) *Node {
+		return g.addNode(&Node{ID: id, Kind: "task", Results: append([]string{"r_" + id}, res...)})
+	}
+	g.addNode(&Node{ID: "Start", Kind: "start"})
+	g.addNode(&Node{ID: "PF", Kind: "and"})
+	g.connect(defs, "Start", "PF", nil, -1)
+	// the writer branch
+	cur := "PF"
+	for i, n := 0, d.N(3); i < n; i++ {
+		th := g.addNode(&Node{ID: fmt.Sprintf("TH%d", i+1), Kind: "throw"})
+		g.connect(defs, cur, th.ID, nil, -1)
+		cur = th.ID
+	}
+	mk("TW", "x")
+	g.connect(defs, cur, "TW", nil, -1)
+	g.addNode(&Node{ID: "EW", Kind: "end"})
+	g.connect(defs, "TW", "EW", nil, -1)
+	// the forking branch
+	cur = "PF"
+	if d.Bool() {
+		mk("TG")
+		g.connect(defs, cur, "TG", nil, -1)
+		cur = "TG"
+	}
+	was := d.Bool()
+	g.addNode(&Node{ID: "OF", Kind: "or"})
+	g.connect(defs, cur, "OF", nil, -1)
+	mk("TA")
+	mk("TD")
+	defFirst := d.Bool()
+	if defFirst {
+		df := g.connect(defs, "OF", "TD", nil, -1)
+		g.Node("OF").Default = df.ID
+	}
+	g.connect(defs, "OF", "TA", &Cond{Var: "x", Want: was}, -1)
+	if !defFirst {
+		df := g.connect(defs, "OF", "TD", nil, -1)
+		g.Node("OF").Default = df.ID
+	}
+	g.addNode(&Node{ID: "OJ", Kind: "or"})
+	g.connect(defs, "TA", "OJ", nil, -1)
+	g.connect(defs, "TD", "OJ", nil, -1)
+	mk("TE")
+	g.connect(defs, "OJ", "TE", nil, -1)
+	g.addNode(&Node{ID: "End", Kind: "end"})
+	g.connect(defs, "TE", "End", nil, -1)
+	g.index()
+	prog := &Program{Defs: defs, Vars: map[string]any{"x": was}, Tags: []string{"condition-variable-written-while-forking"},
+		Desc: fmt.Sprintf("and[ TW(writes x=%v) | or-fork[x==%v -> TA | default -> TD] -> join -> TE ], x=%v at the start", !was, was, was)}
+	c := &ProcCase{Prog: prog, Buf: d.N(17), Hold: 0, Picks: drawPicks(d, 24)}
+	c.Scripts = map[string][]AnswerSpec{"TW": {{Results: map[string]any{"x": !was}}}}
+	c.Stress = &Stress{ConcAnswers: true}
+	c.Meta = map[string]int{"race": 1, "acts": 1}
+	return c
+}
+
 func genC05(d *Draw) Case {
+	if d.N(6) == 5 {
+		return genC05Race(d)
+	}
 	defs := &Definitions{}
 	g := &Graph{ID: "P1", Executable: true}
 	defs.Procs = []*Graph{g}
@@ -825,6 +892,47 @@ func checkC05(cc Case, r *simrt.Result) *Outcome {
 	o := &Outcome{}
 	var vl vlist
 	genericRunViolations("C05", r, &vl)
+	if c.Meta["race"] == 1 {
+		req := map[string]int{}
+		errs, complete, quiesced := 0, false, false
+		for _, ev := range c.env.L.E {
+			switch ev.Kind {
+			case "t:task":
+				req[ev.A]++
+			case "t:error":
+				errs++
+			case "quiescent":
+				quiesced = true
+			case "complete":
+				if ev.A == "true" && !quiesced {
+					complete = true
+				}
+			}
+		}
+		for _, p := range r.Panics {
+			vl.add("C05/panic", "%s", p)
+		}
+		if !r.StepCap && !r.Horizon {
+			switch {
+			case req["TA"]+req["TD"] == 0 && errs == 0:
+				vl.add("C05/no-token-placed", "the inclusive fork placed no token on any outgoing flow (neither TA behind the conditional flow nor TD behind the default flow was requested) and emitted no error trace; requests %v", req)
+			case req["TA"] > 0 && req["TD"] > 0:
+				vl.add("C05/default-and-conditional", "the inclusive fork took the conditional flow and the default flow: requests %v", req)
+			case req["TA"] > 1 || req["TD"] > 1 || req["TE"] > 1:
+				vl.add("C05/join-released-twice", "requests %v for one fork activation", req)
+			case errs == 0 && (req["TE"] != 1 || !complete):
+				vl.add("C05/not-complete", "the token behind the fork did not get through the join to the end: requests %v, complete=%v", req, complete)
+			}
+		}
+		o.Viol = vl.v
+		o.Tags = c.Prog.Tags
+		o.Nontrivial = r.Switches > 0
+		probe(o, "condition-variable-written-while-forking", true)
+		probe(o, "fork-saw-the-old-value", req["TA"] > 0)
+		probe(o, "fork-saw-the-new-value", req["TD"] > 0)
+		o.Sample = map[string]any{"program": c.Prog.Desc, "requests": req}
+		return o
+	}
 	tg := CheckTokenGame("C05", c.Prog, c.env.L.E)
 	vl.v = append(vl.v, tg.Viol...)
 	for _, p := range r.Panics {
